@@ -31,7 +31,7 @@ ASSUMPTIONS = ["with sort_attribute_values=True the printed line is not compared
                "GTF imports run with inference disabled (derived features are C03's business)"]
 
 GFF3_VALS = ["a", "b c", "x;y", "p=q", "1,2", "100%", "t\tu", "é", "a&b", "v1", "Z"]
-PLAIN_VALS = ["a", "b c", "é", "x_1", "v1", "Z", "7"]
+PLAIN_VALS = ["a", "b c", "é", "x_1", "v1", "Z", "7", "u\u2028v", "n\x85l"]
 PLAIN_ESC_VALS = PLAIN_VALS + ["50%25", "a%3Bb", "x%2Cy", "100%"]  # GTF/GFF2 have no escaping: kept verbatim
 
 
